@@ -53,6 +53,8 @@ META = {
 def run(ctx):
     obs = ctx.obs
     obs.extra['meta'] = META
+    from ..model.grids import set_wide_longitudes
+    set_wide_longitudes(True)      # also datasets in the 0..360 convention / straddling 180 degrees
     total = ctx.n(320, 24000)
     for case, rng in ctx.cases(total):
         conv = CONVENTIONS[case % len(CONVENTIONS)]
